@@ -94,6 +94,112 @@ struct Slot {
     threads: Vec<usize>,
 }
 
+impl Threads {
+    /// Construction storm: many threads construct small, differently configured instances at the same
+    /// time (each configuration twice back to back, so that process-wide caches see hits while other
+    /// threads insert), run one call on each and compare with a single-threaded reference.  Aims at
+    /// construction-time shared state: filter/window/plan caches, CPU-feature detection, planners.
+    fn storm(&self, ctx: &Ctx, idx: u64, st: &mut Stats) -> CaseResult {
+        let mut rng = ctx.rng_for(idx);
+        let tiny = ctx.profile == "tiny";
+        let n_cfg = if tiny { 6 } else { rng.ui(40, 120) };
+        let n_threads = if tiny { 2 } else { *rng.pick(&[4usize, 8, 16]) };
+        let rounds = if tiny { 3 } else { rng.ui(20, 80) };
+        let no_fft = std::env::var("RVMON_NO_FFT").is_ok();
+        let mut items: Vec<Item> = Vec::with_capacity(n_cfg);
+        for k in 0..n_cfg {
+            let mut c = Cfg::default();
+            c.kind = *rng.pick(if no_fft { &ASYNC_KINDS[..] } else { &ALL_KINDS[..] });
+            c.channels = 1;
+            c.chunk = rng.ui(4, 24);
+            c.ratio = rng.logf(0.5, 2.0);
+            c.max_rel = 1.0;
+            c.sinc_len = 8 * rng.ui(1, 8);
+            c.oversampling = rng.ui(2, 9);
+            c.interp = *rng.pick(&ALL_INTERP);
+            c.window = *rng.pick(&ALL_WIN);
+            c.f_cutoff = rng.uf(0.6, 0.95) as f32;
+            c.degree = *rng.pick(&ALL_DEG);
+            c.fs_in = rng.ui(2, 24 + k);
+            c.fs_out = rng.ui(2, 24 + k);
+            c.sub_chunks = 1;
+            let ops = vec![Op::Proc { path: Path::Exact, slack_in: 0, slack_out: 0, mask: None, empty_inactive: false }; 2];
+            items.push(Item { cfg: c, ops, sig_seed: rng.next(), f32_: rng.bool() });
+        }
+        let desc = J::obj().with("mode", J::s("construction storm")).with("threads", J::u(n_threads)).with("configurations", J::u(n_cfg)).with("rounds_per_thread", J::u(rounds)).with(
+            "first_configurations",
+            J::Arr(items.iter().take(3).map(|it| J::obj().with("sample", J::s(if it.f32_ { "f32" } else { "f64" })).with("cfg", it.cfg.json())).collect()),
+        );
+        set_desc(&desc);
+        let mut cr = CaseResult { desc, ..Default::default() };
+        if ctx.describe {
+            return cr;
+        }
+        let run_one = |it: &Item| -> Option<u64> {
+            let mut r = AnyRunner::build(it).ok()?;
+            let mut h = 0u64;
+            for op in &it.ops {
+                h = mix(&[h, r.step(op)]);
+            }
+            Some(h)
+        };
+        let reference: Vec<Option<u64>> = items.iter().map(|it| run_one(it)).collect();
+        let items = Arc::new(items);
+        let reference = Arc::new(reference);
+        let bad: Arc<Mutex<Vec<String>>> = Arc::new(Mutex::new(Vec::new()));
+        let built = Arc::new(AtomicU64::new(0));
+        let seed = ctx.sub_seed(idx, 99);
+        let mut handles = Vec::new();
+        for t in 0..n_threads {
+            let (items, reference, bad, built) = (items.clone(), reference.clone(), bad.clone(), built.clone());
+            handles.push(std::thread::spawn(move || {
+                let mut rng = Rng::derive(&[seed, t as u64]);
+                for r in 0..rounds {
+                    let k = rng.ui(0, items.len() - 1);
+                    for rep in 0..2 {
+                        let got = {
+                            let it = &items[k];
+                            let mut h = None;
+                            if let Ok(mut run) = AnyRunner::build(it) {
+                                let mut x = 0u64;
+                                for op in &it.ops {
+                                    x = mix(&[x, run.step(op)]);
+                                }
+                                h = Some(x);
+                            }
+                            h
+                        };
+                        built.fetch_add(1, SeqCst);
+                        if got != reference[k] {
+                            let mut b = bad.lock().unwrap();
+                            if b.len() < 4 {
+                                b.push(format!("thread {} round {} (build {} of the pair): configuration {} ({} {}) differs from its single-threaded reference", t, r, rep, k, items[k].cfg.kind.name(), items[k].cfg.json().dump()));
+                            }
+                        }
+                    }
+                }
+            }));
+        }
+        let mut panicked = false;
+        for h in handles {
+            if h.join().is_err() {
+                panicked = true;
+            }
+        }
+        if panicked {
+            cr.viols.push(Viol::new("C18", "panic_under_concurrent_construction", "a thread panicked while constructing / driving its own instance concurrently with other threads (single-threaded reference run of the same configurations was fine)".into()));
+        }
+        for b in bad.lock().unwrap().iter() {
+            cr.viols.push(Viol::new("C18", "construction_differs_from_single_threaded_reference", b.clone()));
+        }
+        st.add("storm_cases", 1.0);
+        st.add("instances_constructed_concurrently", built.load(SeqCst) as f64);
+        st.add("storm_configurations", n_cfg as f64);
+        cr.class = Some(format!("storm|{}|{}|{}", n_threads, n_cfg, idx));
+        cr
+    }
+}
+
 impl Monitor for Threads {
     fn name(&self) -> &'static str {
         "thr"
@@ -107,6 +213,9 @@ impl Monitor for Threads {
         }
     }
     fn case(&self, ctx: &Ctx, idx: u64, st: &mut Stats) -> CaseResult {
+        if idx % 4 == 3 {
+            return self.storm(ctx, idx, st);
+        }
         let mut rng = ctx.rng_for(idx);
         let tiny = ctx.profile == "tiny";
         let mut gp = if tiny { GenProfile::tiny() } else { GenProfile::small() };
